@@ -38,7 +38,7 @@ fn matf(v: &Value, q: f64) -> Array2<f64> {
             m[[i, j]] = x.as_f64().unwrap() / q;
         }
     }
-    m
+    layout(m)
 }
 
 fn bounds(b: &Value, q: f64) -> (f64, f64) {
@@ -54,6 +54,23 @@ fn contains_grid(p: &Polytope, den: i64, r: i64) -> Value {
         let pt = Array1::from_iter(x.iter().map(|v| *v as f64 / den as f64));
         json!([x, guarded(|| p.contains(&pt)).unwrap_or(false)])
     }).collect())
+}
+
+/// distance_raw at every grid point and distances_raw on the matrix whose columns are the same points (both b - A x, not normalised)
+fn raw_grid(p: &Polytope, den: i64, r: i64, q: f64) -> Value {
+    let pts = grid(p.indim(), r);
+    let single: Vec<Value> = pts.iter().map(|x| {
+        let pt = Array1::from_iter(x.iter().map(|v| *v as f64 / den as f64));
+        let mut ex = true;
+        json!([x, guarded(|| arr1_json(&p.distance_raw(&pt), q * den as f64, &mut ex)).unwrap_or(json!([]))])
+    }).collect();
+    let mut m = Array2::<f64>::zeros((p.indim(), pts.len()));
+    for (k, x) in pts.iter().enumerate() { for (i, v) in x.iter().enumerate() { m[[i, k]] = *v as f64 / den as f64; } }
+    let multi = match guarded(|| p.distances_raw(&m)) {
+        Ok(d) => json!({"res": "ok", "cols": (0..pts.len()).map(|k| { let mut ex = true; arr1_json(&d.column(k).to_owned(), q * den as f64, &mut ex) }).collect::<Vec<_>>()}),
+        Err(_) => json!({"res": "panic", "cols": []}),
+    };
+    json!({"single": single, "multi": multi})
 }
 
 fn status_json(s: &PolytopeStatus) -> Value {
@@ -183,7 +200,7 @@ pub fn run(sc: &Value, id: usize, out: Out) {
             let lastonly = sc.get("lastonly").and_then(|v| v.as_bool()).unwrap_or(false);
             if !lastonly || pipe.is_empty() {
                 emit(json!({"step": -1, "res": "ok", "op": "ctor", "pre": {"none": true}, "post": poly_json(&p, q), "arg": sc["ctor"],
-                            "contains": contains_grid(&p, 2, 3), "dist": dist}));
+                            "contains": contains_grid(&p, 2, 3), "dist": dist, "raw": raw_grid(&p, 2, 2, q)}));
             }
             for (j, st) in pipe.iter().enumerate() {
                 if lastonly && j + 1 < pipe.len() {
@@ -238,6 +255,13 @@ pub fn run(sc: &Value, id: usize, out: Out) {
                     "apply" => { let f = aff_from(&sc["f"]); let den = sc["den"].as_f64().unwrap();
                         Value::Array(grid(f.indim(), 2).iter().map(|x| { let pt = Array1::from_iter(x.iter().map(|v| *v as f64 / den));
                             let mut ex = true; json!([x, arr1_json(&f.apply(&pt), q * den, &mut ex)]) }).collect()) }
+                    "apply_transpose" => { let f = aff_from(&sc["f"]); let den = sc["den"].as_f64().unwrap();
+                        Value::Array(grid(f.outdim(), 2).iter().map(|x| { let pt = Array1::from_iter(x.iter().map(|v| *v as f64 / den));
+                            let mut ex = true; json!([x, arr1_json(&f.apply_transpose(&pt), q * den, &mut ex)]) }).collect()) }
+                    "views" => { let f = aff_from(&sc["f"]);
+                        let g = AffFunc::from_mats(f.matrix_view().to_owned(), f.bias_view().to_owned());
+                        json!({"f": aff_json(&g, q), "indim": f.indim(), "outdim": f.outdim(), "ncons": f.clone().as_polytope().n_constraints()}) }
+                    "reset_row" => { let mut f = aff_from(&sc["f"]); f.reset_row(us(&sc["row"])); aff_json(&f, q) }
                     other => panic!("unknown aff op {}", other),
                 }
             });
